@@ -1,4 +1,5 @@
 import Qats.Lemmas.SNMain
+import Qats.Lemmas.SNBilinear
 /-!
 # C06 — Miner damage is additive and agrees between histogram and closed form
 
@@ -35,6 +36,18 @@ the stress ranges, i.e. the limit of the histogram damage of an arbitrarily fine
 theorem weibull_single_closed_form (a1 h m1 q td v0 : ℝ) (ha : 0 < a1) (hh : 0 < h) (hm : 0 < m1) (hq : 0 < q) :
     v0 * td * ∫ s in Set.Ioi (0 : ℝ), weibullPdf q h s / (a1 * s ^ (-m1)) = sn_mw_single a1 h m1 q td v0 :=
   weibull_single_closed_form' a1 h m1 q td v0 ha hh hm hq
+
+/-- Bilinear closed form of `minersum_weibull`: the expected damage, split at the transition stress `sw` (lower branch
+`a2, m2` below, upper branch `a1, m1` above), equals the generated formula with `g1 = Γ(1 + m1/h, (sw/q)^h)` (upper incomplete
+gamma) and `g2 = γ(1 + m2/h, (sw/q)^h)` (lower incomplete gamma), both defined as integrals in `Lemmas/SNBilinear.lean`
+(scipy's `gammaincc·gamma` / `gammainc·gamma`; that scipy computes these integrals is assumed and measured). -/
+theorem weibull_bilinear_closed_form (a1 a2 h m1 m2 q td v0 sw : ℝ) (ha1 : 0 < a1) (ha2 : 0 < a2) (hh : 0 < h)
+    (hm1 : 0 < m1) (hm2 : 0 < m2) (hq : 0 < q) (hsw : 0 < sw) :
+    v0 * td * ((∫ s in Set.Ioc (0 : ℝ) sw, weibullPdf q h s / (a2 * s ^ (-m2))) +
+        ∫ s in Set.Ioi sw, weibullPdf q h s / (a1 * s ^ (-m1))) =
+      sn_mw_bilinear a1 a2 (upperGamma (sn_mw_a1 h m1) (sn_mw_x h q sw)) (lowerGamma (sn_mw_a2 h m2) (sn_mw_x h q sw))
+        m1 m2 q td v0 :=
+  weibull_bilinear_closed_form' a1 a2 h m1 m2 q td v0 sw ha1 ha2 hh hm1 hm2 hq hsw
 
 /-- Goodman–Haigh: zero-mean cycles are unchanged … -/
 theorem gh_zero_mean (r uts : ℝ) (hu : uts ≠ 0) : gh_corrected (0 : ℝ) r uts = r :=
